@@ -71,7 +71,7 @@ fn size_of(run: &IoRun) -> usize {
 /// Greedy delta debugging on the (workload, fault plan) pair: keep an edit
 /// only if the same invariant of the same property still fails.
 pub fn minimise(run: &IoRun, prop: &str, inv: &str) -> IoRun {
-    let fails = |r: &IoRun| target_viol(&simcore::par::isolated(|| execute(r, false)), prop, Some(inv)).is_some();
+    let fails = |r: &IoRun| target_viol(&exec::execute_isolated(r, false), prop, Some(inv)).is_some();
     let mut cur = run.clone();
     let mut budget = 4000usize;
     loop {
@@ -398,7 +398,7 @@ pub fn run_check(prop: &str, opts: &Opts) -> i32 {
             workers,
             |i| {
                 let t = std::time::Instant::now();
-                let o = simcore::par::isolated(|| execute(&cases_ref[i as usize], false));
+                let o = exec::execute_isolated(&cases_ref[i as usize], false);
                 if std::env::var_os("VERIF_SLOW").is_some() && t.elapsed().as_millis() > 2000 {
                     eprintln!("SLOW enumeration#{} {} ms: {}", i, t.elapsed().as_millis(), serde_json::to_string(&cases_ref[i as usize]).unwrap_or_default());
                 }
@@ -439,7 +439,7 @@ pub fn run_check(prop: &str, opts: &Opts) -> i32 {
                 |i| {
                     let mut rng = Rng::new(run_seed(batch_seed, start + i));
                     let run = gen::gen_run(&mut rng, corpus_ref, prop);
-                    let o = simcore::par::isolated(|| execute(&run, false));
+                    let o = exec::execute_isolated(&run, false);
                     (run, o)
                 },
                 &mut acc,
@@ -465,7 +465,7 @@ pub fn run_check(prop: &str, opts: &Opts) -> i32 {
         violations = 1;
         println!("violation found at {}: {} {} :: {}", origin, v.inv, v.key, v.detail);
         let min = minimise(&run, prop, v.inv);
-        let o = simcore::par::isolated(|| execute(&min, true));
+        let o = exec::execute_isolated(&min, true);
         let mv = target_viol(&o, prop, Some(v.inv)).cloned().unwrap_or(v.clone());
         let rp = Replay {
             engine: "iosim".into(),
@@ -739,21 +739,22 @@ pub fn replay(path: &std::path::Path, quiet: bool) -> i32 {
             _ => vec![],
         };
         for c in cases.iter().take(pf.enumeration_upto as usize + 1) {
-            let _ = simcore::par::isolated(|| execute(c, false));
+            let _ = exec::execute_isolated(c, false);
         }
         if let Some(upto) = pf.seeded_upto {
             let batch_seed = sub_seed(rp.seed, &format!("iosim/{}", prop));
             for i in 0..upto {
                 let mut rng = Rng::new(run_seed(batch_seed, i));
                 let run = gen::gen_run(&mut rng, &corpus, prop);
-                let _ = simcore::par::isolated(|| execute(&run, false));
+                let _ = exec::execute_isolated(&run, false);
             }
         }
     }
     let (tx, rx) = std::sync::mpsc::channel();
     let run = rp.run.clone();
     std::thread::spawn(move || {
-        let _ = tx.send(execute(&run, true));
+        // on its own fresh thread with the teardown probe, exactly as in the batch
+        let _ = tx.send(exec::execute_isolated(&run, true));
     });
     let o = match rx.recv_timeout(HANG_LIMIT) {
         Ok(o) => o,
